@@ -5,6 +5,7 @@ package main
 // first generators did not reach. They run after the owning property's generator.
 
 import (
+	"strings"
 	"bytes"
 	"crypto/hmac"
 	"crypto/sha256"
@@ -537,6 +538,39 @@ func init() {
 				args = append(args, hx(k))
 			}
 			r.Do("c18.ckdpriv.reuse", args, "ckdpriv-reused-buffer-history", true, "")
+		}
+	})
+}
+
+func init() {
+	// C14: seeds for (mnemonic, passphrase) pairs whose plain concatenations coincide, evaluated one
+	// after the other: the seed is a function of the pair, not of the joined string
+	regExtra("C14", func(r *Runner) {
+		for i := 0; i < r.N(6, 60); i++ {
+			words := c14Mnemonic(r.bytesN(20)) // 15 words
+			k := 12
+			tail := " " + strings.Join(words[k:], " ")
+			pass := [][]byte{nil, []byte("x"), []byte("TREZOR")}[i%3]
+			r.Do("bip39.seed", []string{mnemonicStr(words[:k]), hx(append([]byte(tail), pass...))}, "seed/ambiguous-split", true, "12 words, the passphrase continues the sentence")
+			r.Do("bip39.seed", []string{mnemonicStr(words), hx(pass)}, "seed/ambiguous-split", true, "the 15-word mnemonic with the same joined text")
+			// the salt prefix "mnemonic" can be moved as well
+			r.Do("bip39.seed", []string{mnemonicStr([]string{"a"}), hx([]byte("mnemonicb"))}, "seed/ambiguous-split", true, "")
+			r.Do("bip39.seed", []string{mnemonicStr([]string{"amnemonic"}), hx([]byte("b"))}, "seed/ambiguous-split", true, "")
+		}
+	})
+}
+
+func init() {
+	// C07: master-key seeds whose length exceeds a valid length by a multiple of 2^8, 2^13 (bits in 16
+	// bits) or 2^16: all invalid
+	regExtra("C07", func(r *Runner) {
+		for _, w := range []int{256, 512, 8192, 16384, 65536} {
+			for _, v := range []int{16, 32, 64} {
+				for _, d := range []int{0, -1, 4} {
+					l := w + v + d
+					r.Do("bip32.master", []string{hx(r.bytesN(l))}, "master/len-wrapped", false, fmt.Sprintf("seed of %d bytes", l))
+				}
+			}
 		}
 	})
 }
